@@ -569,9 +569,13 @@ func (m *Memberlist) resetNodes() {
 	// Move dead nodes, but respect gossip to the dead interval
 	deadIdx := moveDeadNodes(m.nodes, m.config.GossipToTheDeadTime)
 
-	// Deregister the dead nodes
+	// Deregister the dead nodes. Our own record stays in the map even after
+	// we have left: LocalNode, UpdateNode and Leave look it up and expect it
+	// to exist for the lifetime of the Memberlist.
 	for i := deadIdx; i < len(m.nodes); i++ {
-		delete(m.nodeMap, m.nodes[i].Name)
+		if m.nodes[i].Name != m.config.Name {
+			delete(m.nodeMap, m.nodes[i].Name)
+		}
 		m.nodes[i] = nil
 	}
 
